@@ -2,7 +2,7 @@
 # tools/process_seed.sh <ID> <mN> <check ids...> : confirm a sub-agent's seeded change, keep it
 # under /verif/seeded/<ID>-<mN>/ and run the given checks against it (scratch copies only).
 ID="$1"; M="$2"; shift 2
-if [ "${ROUND:-1}" = "5" ]; then SRC=/tmp/seed5-$ID-out/$M; DST=/verif/seeded/$ID-r5$M; elif [ "${ROUND:-1}" = "4" ]; then SRC=/tmp/seed4-$ID-out/$M; DST=/verif/seeded/$ID-r4$M; elif [ "${ROUND:-1}" = "3" ]; then SRC=/tmp/seed3-$ID-out/$M; DST=/verif/seeded/$ID-r3$M; elif [ "${ROUND:-1}" = "2" ]; then SRC=/tmp/seed2-$ID-out/$M; DST=/verif/seeded/$ID-r2$M; else SRC=/tmp/seed-$ID-out/$M; DST=/verif/seeded/$ID-$M; fi
+R="${ROUND:-1}"; if [ "$R" = "1" ]; then SRC=/tmp/seed-$ID-out/$M; DST=/verif/seeded/$ID-$M; else SRC=/tmp/seed$R-$ID-out/$M; DST=/verif/seeded/$ID-r$R$M; fi
 [ -f "$SRC/patch.diff" ] || { echo "no $SRC/patch.diff"; exit 2; }
 mkdir -p "$DST"; cp "$SRC/patch.diff" "$DST/"; cp "$SRC/meta.json" "$DST/agent_meta.json" 2>/dev/null; rm -rf "$DST/demo"; cp -r "$SRC/demo" "$DST/demo" 2>/dev/null
 echo "######## $ID $M"
